@@ -569,6 +569,9 @@ def run(ctx):
     c13.run_r4(ctx, r5)
     r6 = ctx.rule("C01-R6", "the byte-wise keyword scan stops at the first byte that is not a letter, like the word kernel (prefix scan)", floor=1)
     run_r6(ctx, r6)
+    from .c02 import run_r9 as c02_r9
+    r7 = ctx.rule("C01-R7", "no construction path installs a chunk size that is not provably positive: with chunk size 0 every parser ends cleanly after nothing (shared with C02-R9)", floor=2)
+    c02_r9(ctx, r7)
     from .c09 import run_r1 as c09_r1
     r3 = ctx.rule("C01-R3", "Interrupted is handled only inside request_more, as a retry that touches no state (shared with C09-R1)", floor=8)
     c09_r1(ctx, r3)
